@@ -115,10 +115,10 @@ pub fn run(ctx: &mut Ctx) {
     ctx.run_cases("streams", n, false, |ctx, rng, idx| {
         let nstates = if idx % 11 == 0 { rng.range(1, 3) } else { rng.range(1, 60) };
         let vlen = rng.range(1, 4);
-        let wset = idx % 5;
+        let wset = idx % 6;
         let wins = window_set(wset);
         let nwin = wins.len();
-        let kind = (idx / 5) % 6;
+        let kind = (idx / 6) % 6;
         let is_msd = kind != 0 || rng.chance(0.5);
         let weights = pattern(rng, nstates, kind);
         let thr = if rng.chance(0.2) { 0.5 } else { rng.uniform(0.3, 0.7) };
@@ -142,7 +142,16 @@ pub fn run(ctx: &mut Ctx) {
             gv: None,
             windows: &windows,
         };
-        let out = MlpgAdjust::new(1.0, thr, ms).create(&durations);
+        let adjust = MlpgAdjust::new(1.0, thr, ms);
+        // every third case: the same object is asked twice, first with other durations; the
+        // second answer is the one that is checked (nothing may be remembered from the first)
+        let out = if idx % 3 == 2 {
+            let other: Vec<usize> = (0..nstates).map(|_| rng.range(1, 8)).collect();
+            let _ = adjust.create(&other);
+            adjust.create(&durations)
+        } else {
+            adjust.create(&durations)
+        };
         let total: usize = durations.iter().sum();
         let descr = |extra: J| {
             J::obj()
